@@ -1,8 +1,11 @@
 //! C16 / C17 stream `modes`: the same scripted multi-connection history against serve(), serve_threaded()
 //! and serve_epoll() on real listeners, with logging lifecycle hooks.
-//! case:  `<conn>/<conn>/...` ; conn = `P|X` (setup decision: proceed / drop) `:` steps `D<hex>`,`R`,`X` joined by ';'
-//!        connections are made one after the other; a final extra connection makes the setup hook answer
-//!        StopAccepting.
+//! case:  `[T<n>!]<conn>/<conn>/...` ; conn = `<kind>:` steps `D<hex>`,`R`,`X` joined by ';'  (T<n>! = thread_count n, default 4)
+//!        kind P = the setup hook proceeds with the accepted stream, C = proceeds with a clone of it (the accepted one is dropped),
+//!        X = the setup hook drops it, K = proceed, and the client keeps the connection open across StopAccepting,
+//!        Q = proceed; the client sends its bytes at once but reads the responses only after the server was told to stop and
+//!        the K connections were closed (with every pool worker held by a K connection its job waits in the queue meanwhile).
+//!        Connections are made one after the other; a final extra connection makes the setup hook answer StopAccepting.
 //! impl:  per mode `mode=<name> conns=[<transcript>#hooks=<S,P*,T(ok|err)>|...] returned=<0|1>` joined by ' ## '
 use crate::s_conn::{app, parse_response};
 use crate::util::*;
@@ -27,17 +30,19 @@ fn free_port() -> u16 {
     l.local_addr().unwrap().port()
 }
 
-fn run_mode(mode: &str, conns: &[(bool, Vec<String>)], keep: &[bool]) -> String {
+fn run_mode(mode: &str, conns: &[(bool, Vec<String>)], keep: &[bool], kinds: &[char], threads: usize) -> String {
     let port = free_port();
     let log: Arc<Mutex<HookLog>> = Arc::new(Mutex::new(HookLog::default()));
     let stop = Arc::new(AtomicBool::new(false));
     let decisions: Arc<Vec<bool>> = Arc::new(conns.iter().map(|c| c.0).collect());
+    let clones: Arc<Vec<bool>> = Arc::new(kinds.iter().map(|k| *k == 'C').collect());
     let accepted = Arc::new(AtomicUsize::new(0));
     let mut b = Server::builder(("127.0.0.1", port)).unwrap();
-    b.thread_count(4);
+    b.thread_count(threads);
     b.fallback_route(app);
     {
         let (log, stop, decisions, accepted) = (log.clone(), stop.clone(), decisions.clone(), accepted.clone());
+        let clones = clones.clone();
         b.connection_setup_hook(move |c| {
             if stop.load(Ordering::SeqCst) { return ConnectionSetupAction::StopAccepting; }
             match c {
@@ -46,7 +51,11 @@ fn run_mode(mode: &str, conns: &[(bool, Vec<String>)], keep: &[bool]) -> String 
                     let mut l = log.lock().unwrap();
                     l.conns.push(vec!["S".to_string()]);
                     l.by_port.push((peer.port(), i));
-                    if decisions.get(i).copied().unwrap_or(true) { ConnectionSetupAction::Proceed(stream) } else { ConnectionSetupAction::Drop }
+                    if !decisions.get(i).copied().unwrap_or(true) { return ConnectionSetupAction::Drop; }
+                    if clones.get(i).copied().unwrap_or(false) {
+                        // hand back a different TcpStream object (another descriptor) for the same connection
+                        match stream.try_clone() { Ok(c) => { drop(stream); ConnectionSetupAction::Proceed(c) } Err(_) => ConnectionSetupAction::Proceed(stream) }
+                    } else { ConnectionSetupAction::Proceed(stream) }
                 }
                 Err(_) => ConnectionSetupAction::Drop,
             }
@@ -98,6 +107,14 @@ fn run_mode(mode: &str, conns: &[(bool, Vec<String>)], keep: &[bool]) -> String 
     };
     let mut transcripts = Vec::new();
     let mut held: Vec<(usize, TcpStream)> = Vec::new();
+    let mut queued: Vec<(usize, TcpStream, usize)> = Vec::new();
+    let read_one = |s: &mut TcpStream, rbuf: &mut Vec<u8>| -> String {
+        let mut tmp = [0u8; 65536];
+        loop {
+            if let Some((used, r)) = parse_response(rbuf) { rbuf.drain(..used); break r; }
+            match s.read(&mut tmp) { Ok(0) => break "CLOSED".to_string(), Ok(n) => rbuf.extend_from_slice(&tmp[..n]), Err(e) if e.kind() == std::io::ErrorKind::WouldBlock || e.kind() == std::io::ErrorKind::TimedOut => break "TIMEOUT".to_string(), Err(_) => break "CLOSED".to_string() }
+        }
+    };
     for (ci, (_, steps)) in conns.iter().enumerate() {
         let mut s = match connect(Duration::from_secs(2)) { Some(s) => s, None => { transcripts.push("NOCONNECT".to_string()); continue; } };
         let _ = t0;
@@ -105,18 +122,17 @@ fn run_mode(mode: &str, conns: &[(bool, Vec<String>)], keep: &[bool]) -> String 
         s.set_read_timeout(Some(Duration::from_millis(1500))).unwrap();
         let mut rbuf: Vec<u8> = Vec::new();
         let mut outs = Vec::new();
+        if kinds[ci] == 'Q' {
+            for st in steps { if st.starts_with('D') { let _ = s.write_all(&unhex(&st[1..])); std::thread::sleep(Duration::from_micros(700)); } }
+            queued.push((ci, s, steps.iter().filter(|x| x.as_str() == "R").count()));
+            transcripts.push(String::new());
+            continue;
+        }
         for st in steps {
             match &st[..1] {
                 "D" => { let _ = s.write_all(&unhex(&st[1..])); std::thread::sleep(Duration::from_micros(700)); }
                 "X" => { let _ = s.shutdown(std::net::Shutdown::Write); }
-                _ => {
-                    let mut tmp = [0u8; 65536];
-                    let r = loop {
-                        if let Some((used, r)) = parse_response(&rbuf) { rbuf.drain(..used); break r; }
-                        match s.read(&mut tmp) { Ok(0) => break "CLOSED".to_string(), Ok(n) => rbuf.extend_from_slice(&tmp[..n]), Err(e) if e.kind() == std::io::ErrorKind::WouldBlock || e.kind() == std::io::ErrorKind::TimedOut => break "TIMEOUT".to_string(), Err(_) => break "CLOSED".to_string() }
-                    };
-                    outs.push(r);
-                }
+                _ => { let r = read_one(&mut s, &mut rbuf); outs.push(r); }
             }
         }
         // final state: does the server close within 150 ms?
@@ -140,8 +156,19 @@ fn run_mode(mode: &str, conns: &[(bool, Vec<String>)], keep: &[bool]) -> String 
     let _ = connect(Duration::from_millis(500));
     std::thread::sleep(Duration::from_millis(30));
     // connections that were kept open across StopAccepting are closed by the client only now
-    let held_ids: Vec<usize> = held.iter().map(|h| h.0).collect();
+    let mut held_ids: Vec<usize> = held.iter().map(|h| h.0).collect();
     drop(held);
+    // now the deferred reads of the Q connections, then their close
+    for (ci, mut s, nr) in queued {
+        let mut rbuf = Vec::new();
+        let outs: Vec<String> = (0..nr).map(|_| read_one(&mut s, &mut rbuf)).collect();
+        s.set_read_timeout(Some(Duration::from_millis(150))).unwrap();
+        let mut tmp = [0u8; 1024];
+        let fin = match s.read(&mut tmp) { Ok(0) => "EOF", Ok(_) => "DATA", Err(e) if e.kind() == std::io::ErrorKind::WouldBlock || e.kind() == std::io::ErrorKind::TimedOut => "OPEN", Err(_) => "EOF" };
+        transcripts[ci] = format!("{}|{}", outs.join(";"), fin);
+        drop(s);
+        held_ids.push(ci);
+    }
     let t3 = Instant::now();
     loop {
         let done = { let l = log.lock().unwrap(); held_ids.iter().all(|ci| l.conns.get(*ci).map(|c| c.iter().any(|e| e.starts_with("T("))).unwrap_or(false)) };
@@ -161,12 +188,14 @@ fn run_mode(mode: &str, conns: &[(bool, Vec<String>)], keep: &[bool]) -> String 
 pub fn run(case: &str) -> String {
     crate::util::note_current(case);
     // P = proceed, X = setup hook drops it, K = proceed and the client keeps it open across StopAccepting
+    let (threads, case) = match case.strip_prefix('T').and_then(|r| r.split_once('!')) { Some((n, rest)) => (n.parse().unwrap(), rest), None => (4usize, case) };
     let keep: Vec<bool> = case.split('/').map(|c| c.starts_with("K:")).collect();
+    let kinds: Vec<char> = case.split('/').map(|c| c.chars().next().unwrap()).collect();
     let conns: Vec<(bool, Vec<String>)> = case.split('/').map(|c| {
         let (d, steps) = c.split_once(':').unwrap();
-        (d == "P" || d == "K", steps.split(';').filter(|x| !x.is_empty()).map(|x| x.to_string()).collect())
+        (d != "X", steps.split(';').filter(|x| !x.is_empty()).map(|x| x.to_string()).collect())
     }).collect();
-    ["pool", "threaded", "epoll"].iter().map(|m| run_mode(m, &conns, &keep)).collect::<Vec<_>>().join(" ## ")
+    ["pool", "threaded", "epoll"].iter().map(|m| run_mode(m, &conns, &keep, &kinds, threads)).collect::<Vec<_>>().join(" ## ")
 }
 
 pub fn gen(ctx: &Ctx) {
@@ -175,7 +204,7 @@ pub fn gen(ctx: &Ctx) {
     let mut out = Out::new(&ctx.dir, "modes");
     out.rule = "histories of 1..4 sequential connections, each with a setup decision (proceed / drop) and 0..3 lock-step requests (no body / fixed / chunked; handlers: read all, none, close, Err, slow (answer first, linger 25 ms: the next request or the close arrives while the request is in flight), \
                 hook answers; malformed head; client close without request), run against serve, serve_threaded and serve_epoll on real listeners with logging setup / pre-routing / teardown hooks; \
-                one history in six keeps thread_count (4) connections open side by side; the server is then stopped through the setup hook. non-trivial = at least one request answered".into();
+                one history in six keeps thread_count (4) connections open side by side; the server is then stopped through the setup hook; one proceeding connection in five is handed back by the setup hook as a clone of the accepted stream; one history in seven runs a 1-2 thread pool whose workers are all held by open connections while one more connection waits in the queue when the server is stopped; after a close signal the client tries a further request half of the time; 1..3 Expect: 100-continue exchanges on one connection (compared across modes only). non-trivial = at least one request answered".into();
     let n = if ctx.thorough { 1000 } else { 60 };
     for _ in 0..n {
         let nc = rng.range(1, 4);
@@ -184,12 +213,13 @@ pub fn gen(ctx: &Ctx) {
         let side_by_side = rng.chance(1, 6);
         for _ in 0..nc {
             let proceed = side_by_side || !rng.chance(1, 6);
+            let cloned = proceed && !side_by_side && rng.chance(1, 5);
             let mut steps: Vec<String> = Vec::new();
             let nr = rng.below(4);
             let mut ended = false;
             for j in 0..nr {
                 if ended { break; }
-                let kind = rng.below(12);
+                let kind = rng.below(16);
                 if kind == 0 {
                     steps.push(format!("D{}", hex(b"GET / HTTP/1.1\r\nbroken header\r\n\r\n"))); steps.push("R".into()); ended = true; continue;
                 }
@@ -199,17 +229,19 @@ pub fn gen(ctx: &Ctx) {
                 let wire = if body.is_empty() { vec![] } else if rng.chance(1, 2) { fields.push(("Content-Length".into(), body.len().to_string().into_bytes())); body.clone() }
                            else { fields.push(("Transfer-Encoding".into(), b"chunked".to_vec())); crate::s_body::encode_chunked(&mut rng, &body) };
                 // 9: a slow handler (answers, then lingers 25 ms): what the client does next reaches the server while the request is in flight
-                let path = match kind { 1 => "/close", 2 if j + 1 == nr => "/err", 3 => "/none", 4 => "/first", 5 => "/nosuch", 6 => "/reader/3000", 9 => "/slow/25", _ => "/all" };
+                let path = match kind { 1 => "/close", 2 => "/err", 3 => "/none", 4 => "/first", 5 => "/nosuch", 6 => "/reader/3000", 9 => "/slow/25",
+                    12 => *rng.pick(&["/errk/wb", "/errk/to", "/errk/intr", "/errk/pipe", "/errk/other"]), 13 => *rng.pick(&["/closer", "/closeka"]), _ => "/all" };
                 if kind == 7 { fields.push(("x-hook".into(), b"answer".to_vec())); }
                 if kind == 8 { fields.push(("Connection".into(), b"close".to_vec())); }
                 let r = Req { method: if wire.is_empty() { "GET" } else { "POST" }, path: path.into(), fields, body: wire };
                 let g = rng.chance(1, 2);
                 steps.extend(exchange(&mut rng, &r, g));
-                if path == "/close" || path == "/err" || kind == 8 { ended = true; }
+                // after a close signal the connection is closed by the server: half of the time the client tries another request anyway
+                if path.starts_with("/close") || path.starts_with("/err") || kind == 8 { ended = rng.chance(1, 2); }
             }
             if rng.chance(1, 3) { steps.push("X".into()); }
             if side_by_side { steps.retain(|x| x != "X"); }
-            conns.push(format!("{}:{}", if side_by_side { "K" } else if proceed { "P" } else { "X" }, steps.join(";")));
+            conns.push(format!("{}:{}", if side_by_side { "K" } else if cloned { "C" } else if proceed { "P" } else { "X" }, steps.join(";")));
         }
         let mut case = conns.join("/");
         let mut class = format!("conns{nc}");
@@ -218,6 +250,16 @@ pub fn gen(ctx: &Ctx) {
             let r = Req { method: "GET", path: "/none".into(), fields: vec![], body: vec![] };
             for _ in nc..4 { case.push_str(&format!("/K:{}", exchange(&mut rng, &r, false).join(";"))); }
             class = "four-open-side-by-side".into();
+        } else if rng.chance(1, 7) {
+            // a small pool whose workers are all held by open connections, one more connection whose job waits in the queue,
+            // then StopAccepting: the queued connection must still be handled and torn down
+            let t = rng.range(1, 2);
+            let r = Req { method: "GET", path: "/none".into(), fields: vec![], body: vec![] };
+            let mut cs: Vec<String> = (0..t).map(|_| format!("K:{}", exchange(&mut rng, &r, false).join(";"))).collect();
+            let q = Req { method: "GET", path: "/all".into(), fields: vec![], body: vec![] };
+            cs.push(format!("Q:{}", exchange(&mut rng, &q, true).join(";")));
+            case = format!("T{t}!{}", cs.join("/"));
+            class = "queued-at-stop".into();
         } else if rng.chance(1, 8) {
             // one more connection: a request, then the client keeps it open while the server is told to stop
             let r = Req { method: "GET", path: "/none".into(), fields: vec![], body: vec![] };
@@ -226,6 +268,51 @@ pub fn gen(ctx: &Ctx) {
         }
         let r = run(&case);
         out.emit(&case, &r, &class, r.contains(",k|") || r.contains(",k;") || r.contains(",c|"));
+    }
+    // interim responses: k requests with Expect: 100-continue on one connection (the application model has no interim
+    // responses: these histories are compared across the three modes only)
+    for k in 1..=(if ctx.thorough { 4 } else { 3 }) {
+        let mut steps: Vec<String> = Vec::new();
+        for j in 0..k {
+            let body = format!("body{j}");
+            steps.push(format!("D{}", hex(format!("POST /cont?r={j} HTTP/1.1\r\nExpect: 100-continue\r\nContent-Length: {}\r\n\r\n", body.len()).as_bytes())));
+            steps.push("R".into());
+            steps.push(format!("D{}", hex(body.as_bytes())));
+            steps.push("R".into());
+        }
+        let case = format!("P:{}", steps.join(";"));
+        let r = run(&case);
+        out.emit(&case, &r, "expect-continue", true);
+    }
+    out.finish();
+}
+
+/// stream `modes09` (C09 in every serve mode): one connection; a request carrying / provoking a close signal, then probes
+pub fn gen09(ctx: &Ctx) {
+    use crate::s_connexp::{exchange, Req};
+    let mut rng = Rng::new(ctx.seed, "modes09");
+    let mut out = Out::new(&ctx.dir, "modes09");
+    out.rule = "one connection against serve, serve_threaded and serve_epoll: a first request that signals or provokes a close (request close token; response close token on a plain, streamed or \
+                list-valued response; handler Err of kinds WouldBlock / TimedOut / Interrupted / BrokenPipe / Other; respond-then-Err; hook answer with close; malformed head) or none (controls), \
+                then one or two further requests that must or must not be answered. non-trivial = all".into();
+    let firsts: Vec<(&str, Vec<(String, Vec<u8>)>)> = vec![
+        ("/none", vec![]), ("/all", vec![]), ("/close", vec![]), ("/closer", vec![]), ("/closeka", vec![]), ("/err", vec![]), ("/errafter", vec![]),
+        ("/errk/wb", vec![]), ("/errk/to", vec![]), ("/errk/intr", vec![]), ("/errk/pipe", vec![]), ("/errk/eof", vec![]), ("/errk/reset", vec![]),
+        ("/none", vec![("Connection".into(), b"close".to_vec())]), ("/reader/3000", vec![("connection".into(), b"keep-alive, Close".to_vec())]),
+        ("/none", vec![("x-hook".into(), b"answer-close".to_vec())]), ("/none", vec![("x-hook".into(), b"answer".to_vec())]),
+    ];
+    let reps = if ctx.thorough { 8 } else { 1 };
+    for _ in 0..reps {
+        for (path, fields) in &firsts {
+            let r = Req { method: "GET", path: path.to_string(), fields: fields.clone(), body: vec![] };
+            let mut steps = exchange(&mut rng, &r, true);
+            let probe = Req { method: "GET", path: "/none?probe".into(), fields: vec![], body: vec![] };
+            steps.extend(exchange(&mut rng, &probe, true));
+            if rng.chance(1, 2) { steps.extend(exchange(&mut rng, &probe, true)); }
+            let case = format!("{}:{}", if rng.chance(1, 4) { "C" } else { "P" }, steps.join(";"));
+            let res = run(&case);
+            out.emit(&case, &res, &format!("first={path}"), true);
+        }
     }
     out.finish();
 }
